@@ -123,9 +123,6 @@ func (p *Prog) replayKnown(o checkOpts, f KnownFinding) (bool, string) {
 	return true, "replay returned no result"
 }
 
-func (p *Prog) replayModel(o checkOpts, ob *Obligation) (bool, string) {
-	return false, "model-to-input rendering for function-level obligations is not built; the solver output is attached"
-}
 
 var _ = strings.TrimSpace
 
@@ -151,6 +148,7 @@ func runReplayFile(path string) int {
 			Kind string            `json:"kind"`
 			Args map[string]string `json:"args"`
 		} `json:"harness_recipe"`
+		Witness *Witness `json:"witness_recipe"`
 	}
 	if err := json.Unmarshal(data, &rep); err != nil {
 		fmt.Println("bad replay file:", err)
@@ -162,6 +160,25 @@ func runReplayFile(path string) int {
 		o.repoDir = d
 	}
 	p := &Prog{}
+	if rep.Witness != nil {
+		// an input found by the witness search: run it again and re-check the contract clauses
+		verif := "/verif"
+		if d := os.Getenv("GOVC_VERIF"); d != "" {
+			verif = d
+		}
+		lp, err := loadProg(o.repoDir, filepath.Join(verif, "spec"))
+		if err != nil {
+			fmt.Println("replay failed to run:", err)
+			return 2
+		}
+		still, detail := lp.replayWitness(o, rep.Witness)
+		if still {
+			fmt.Println("VIOLATED:", detail)
+			return 1
+		}
+		fmt.Println("holds:", detail)
+		return 0
+	}
 	if rep.Recipe == nil && rep.Harness != nil {
 		rs, err := p.runHarness(o, rep.Harness.Pkg, []replayJob{{ID: "harness", Kind: rep.Harness.Kind, Args: rep.Harness.Args}})
 		if err != nil || len(rs) != 1 {
